@@ -204,3 +204,35 @@ Theorem C06_spec_entry_is_rule : forall k T b X,
   iter k (lut_step_fast T b) X = lut_iter k T b X /\ forall fuel, lut_fix_fast fuel T b X = lut_fix fuel T b X.
 Proof. exact spec_entry_is_rule. Qed.
 Print Assumptions C06_spec_entry_is_rule.
+
+From Centro Require Import Proofs.LutTotal.
+
+(* Finite: which documented tables never set / never clear a pixel *)
+Theorem C06_wrapper_table_classes :
+  map (fun d => (erosive_tb (doc_table (fst d)), extensive_tb (doc_table (fst d)))) doc_ops =
+  [ (true, false); (false, true); (true, false); (false, true); (true, false); (false, true); (false, true);
+    (true, false); (true, false); (false, false); (false, false); (true, false); (false, true) ].
+Proof. exact wrapper_table_classes. Qed.
+Print Assumptions C06_wrapper_table_classes.
+
+(* Full: with iterations=None (or for hbreak/vbreak/remove, always) every wrapper whose documented table
+   is erosive or extensive RETURNS - with or without mask - and its result is the input outside the
+   mask and a fixed point of the documented rule, reached by iterating it on the masked image, inside *)
+Theorem C06_wrapper_until_unchanged_total : forall code P b f mode dt X M,
+  nth_error doc_ops (Z.to_nat code) = Some (P, (b, f, mode)) -> 0 <= code < 13 ->
+  mode = -2 \/ mode = -1 ->
+  (0 < length X)%nat -> rect X ->
+  let M' := eff_mask f M in
+  let Xm := spec_masked X M' (eff_fill f) in
+  (erosive (doc_table P) /\ (set_pixels Xm < FUEL)%nat) \/ (extensive (doc_table P) /\ (clear_pixels Xm < FUEL)%nat) ->
+  exists Y, run_op code dt X M None = Some (spec_restore X M' Y) /\
+            op_rule P b Y = Y /\ exists n, Y = iter n (op_rule P b) Xm.
+Proof. exact wrapper_until_unchanged_total. Qed.
+Print Assumptions C06_wrapper_until_unchanged_total.
+
+(* Full: spur with a mask returns the input outside the mask (inside: C06_spur_meets_spec) *)
+Theorem C06_spur_mask_restores : forall dt X m iters,
+  (0 < length X)%nat -> rect X ->
+  exists R, run_op 13 dt X (Some m) iters = Some (spec_restore X (Some m) R).
+Proof. exact spur_mask_restores. Qed.
+Print Assumptions C06_spur_mask_restores.
